@@ -1,12 +1,279 @@
 /-
-  C11 — the AOF is a faithful redo log (work in progress: table theorems first).
+  C11 — with appendonly enabled the AOF is a faithful redo log.
+
+  Property theorems only; helper lemmas live in FerrousSpec/Proofs/Aof*.lean.
+  Model: FerrousSpec/Model/Aof.lean (on top of the key-space machine `KS.step`): `Code.aofAppend`/`Code.fileAfter`
+  (what `process_normal_command` writes), `log cfg h` (the commands in the file after history `h`; `Cfg.code w` = the
+  code with write table `w`, `Cfg.fixed w` = what the property prescribes), `live` (the server after `h`),
+  `replay` (the entries, in file order, on a fresh connection of an empty server, at any instants).
+  Tie to the code: `Gen.writeCommands`, `Gen.aofDispatchNames`, `Gen.appendBeforeDispatch`, `Gen.appendSites`,
+  `Gen.wakeLogs` are regenerated from src/network/server.rs on every run (translator/aof_tables.py); lib/c11.py
+  compares the real file with `fileOf (log (Cfg.code Gen.writeCommands) h)` byte for byte and the two datasets
+  (live server, fresh server fed the file) with `live` / `replayAt`.
+
+  Agreement (`Agree`) = in every database the same keys in the same order with the same values, and a key has a
+  deadline on one side iff it has one on the other (values + TTL presence; never remaining time).
 -/
-import FerrousSpec.Model.Aof
+import FerrousSpec.Proofs.AofFrames
+import FerrousSpec.Proofs.AofReadOnly
+import FerrousSpec.Proofs.AofReplay
+import FerrousSpec.Proofs.KsAtomic
+import FerrousSpec.Props.C20
 import FerrousSpec.Gen.Aof
 namespace Ferrous.C11
 open Ferrous Ferrous.KS Ferrous.Aof
 
-theorem writes_are_logged_partial :
-    ∀ n ∈ Spec.writeNames, n ∉ Spec.notLogged → n ∈ Gen.writeCommands := by decide
+/-! ### (1) The file is at all times a sequence of complete command frames -/
+
+/-- The bytes `process_normal_command` has appended after any history are exactly the serialisations of the
+    commands of `log`, one after the other (nothing else ever writes to the file). -/
+theorem code_file_is_log (w : List String) (h : List Aof.Ev) :
+    Code.fileAfter w [] h = fileOf (log (Cfg.code w) h) :=
+  fileAfter_eq w h
+
+/-- Every state-changing command that passed through `process_normal_command` is represented exactly once, in
+    execution order: the log is the sub-list of the commands received whose name is in the table. -/
+theorem logged_once_in_order (w : List String) (h : List Aof.Ev) :
+    log (Cfg.code w) h = (rawsOf h).filter fun raw => isWrite w (nameOf raw) :=
+  log_code_eq_filter w {} h
+
+/-- For every list of commands — arguments arbitrary bytes (CR, LF, NUL, `*3\r\n…` included) — the concatenation of
+    their serialisations is read back by a strict reader as exactly those commands, ending at a frame end. -/
+theorem log_is_frames (cs : List (List Bytes)) (hw : ∀ c ∈ cs, cmdWf c) : readLog (fileOf cs) = (cs, .clean) :=
+  readLog_fileOf cs hw
+
+/-- The same holds at every frame boundary: the file cut after the `k`-th command is a prefix of the file and reads
+    back as the first `k` commands. -/
+theorem log_prefix_at_frame_end (cs : List (List Bytes)) (hw : ∀ c ∈ cs, cmdWf c) (k : Nat) :
+    fileOf cs = fileOf (cs.take k) ++ fileOf (cs.drop k) ∧ readLog (fileOf (cs.take k)) = (cs.take k, .clean) := by
+  constructor
+  · rw [← fileOf_append, List.take_append_drop]
+  · exact readLog_fileOf _ fun c hc => hw c (List.mem_of_mem_take hc)
+
+/-- A `kill -9` in the middle of an append loses at most the last command: the file cut anywhere strictly inside the
+    frame of one more command reads back as all complete commands before it, then "need more data" — never as a
+    wrong command and never as garbage. -/
+theorem log_torn_tail (cs : List (List Bytes)) (hw : ∀ c ∈ cs, cmdWf c) (c : List Bytes) (hc : cmdWf c)
+    (p e : Bytes) (hpe : p ++ e = serCmd c) (hp : p ≠ []) (he : e ≠ []) :
+    readLog (fileOf cs ++ p) = (cs, .torn p) :=
+  readLog_torn cs hw c hc p e hpe hp he
+
+/-- ferrous's own incremental parser (the one `AofEngine::load` uses), fed the file in ANY chunking, yields exactly
+    the appended commands, no error and nothing else (C20's chunking independence + round trip). -/
+theorem log_parses_under_any_chunking (cs : List (List Bytes)) (hw : ∀ c ∈ cs, cmdWf c) (chunks : List Bytes)
+    (hfl : chunks.flatten = fileOf cs) :
+    runChunks true [] chunks = cs.map fun c => Ferrous.Ev.frame (cmdFrame c) := by
+  rw [C20.chunking_independent chunks, hfl, runWhole_fileOf cs hw]
+
+/-! ### (2) The write table against the catalogue -/
+
+/-- KEY LEMMA (what makes the hand-written catalogue trustworthy): a command of the key-space machine whose name is
+    not in `Spec.writeNames` returns the database it was given — for all databases, arguments, instants, draws. -/
+theorem readonly_never_changes_dataset (q : Quirks) (db : Db) (now : Nat) (name : String) (args : List Bytes)
+    (obs : Option (List Bytes)) (h : ¬ name ∈ Spec.writeNames) : (stepDb q db now name args obs).1 = db :=
+  stepDb_readonly q db now name args obs h
+
+/-- … and every name in `Spec.writeNames` does change some database (`FLUSHALL`: the whole store). -/
+theorem writeNames_all_mutate :
+    (∀ n ∈ Spec.writeNames, n = "FLUSHALL" ∨
+      ∃ w ∈ Spec.mutWitness, w.1 = n ∧ (stepDb Quirks.spec w.2.1 1000 n w.2.2 (some [[97]])).1 ≠ w.2.1) ∧
+    (step Quirks.spec [[([107], ⟨.str [53], none⟩)]] 0 1000 [[70, 76, 85, 83, 72, 65, 76, 76]] none).1 ≠ [[([107], ⟨.str [53], none⟩)]] := by
+  decide
+
+/-- Every mutating command of the catalogue is in the regenerated table, except the listed ones. -/
+theorem writes_are_logged_partial : ∀ n ∈ Spec.writeNames, n ∉ Spec.notLogged → n ∈ Gen.writeCommands := by decide
+
+/-- The exception list is exact on the current tree: each listed name mutates and is missing from the table.
+    (After `fix: add GETSET, HMSET, PEXPIRE to is_write_command` this theorem stops checking: `Spec.notLogged`
+    becomes `[]` and `writes_are_logged_partial` is the full statement.) -/
+theorem not_logged_exact : ∀ n ∈ Spec.notLogged, n ∈ Spec.writeNames ∧ n ∉ Gen.writeCommands := by decide
+
+/-- The same for the dispatched commands outside the key-space machine that change the dataset. -/
+theorem outside_writes_logged_partial : ∀ n ∈ Spec.outsideWrites, n ∉ Spec.notLoggedOutside → n ∈ Gen.writeCommands := by decide
+theorem outside_not_logged_exact : ∀ n ∈ Spec.notLoggedOutside, n ∈ Spec.outsideWrites ∧ n ∉ Gen.writeCommands := by decide
+
+/-- The catalogue is total: every name `process_normal_command` dispatches is classified (a command added to the
+    server makes this fail until it is classified). -/
+theorem catalogue_total :
+    ∀ n ∈ Gen.aofDispatchNames, n ∈ KS.cmdNames ∨ n ∈ Spec.outsideWrites ∨ n ∈ Spec.outsideReads := by decide
+
+/-- Nothing read-only is logged by name, except that EVAL/EVALSHA are logged whatever the script does. -/
+theorem table_has_no_reads :
+    ∀ n ∈ Gen.writeCommands, n ∈ Spec.writeNames ∨ n ∈ Spec.outsideWrites := by decide
+
+/-- Where the log is written: once, in `process_normal_command`, before the dispatch and whatever the outcome;
+    `wake_client` does not log; SELECT is not in the table; names forced off are not modelled commands. -/
+theorem append_before_dispatch : Gen.appendBeforeDispatch = true := by decide
+theorem single_append_site : Gen.appendSites = ["network/server.rs:process_normal_command"] := by decide
+theorem wake_never_logs : Gen.wakeLogs = false := by decide
+theorem select_never_logged : (Cfg.code Gen.writeCommands).wf = true := by decide
+theorem forced_off_outside_catalogue : ∀ n ∈ Gen.writeForcedOff, n ∉ Spec.writeNames ∧ n ∉ Spec.outsideWrites := by decide
+
+/-! ### (3) Replay = live -/
+
+/-- PARTIAL (the code as it is): for every history inside the model all of whose events the current log covers —
+    i.e. (`covered`, decidable) no mutating command outside the table, no SPOP, every logged command sent while the
+    connection is in database 0, no blocked client served — and every replay of the file's entries, in file order on
+    a fresh connection of an empty server, at ANY instants and with any random draws: if no deadline passes during
+    the history or during the replay, the replayed dataset agrees with the live one in every database
+    (values, TTL presence). -/
+theorem replay_eq_live_partial (q : Quirks) (h : List Aof.Ev) (es : List REntry)
+    (hes : es.map (·.cmd) = log (Cfg.code Gen.writeCommands) h)
+    (hin : ∀ ev ∈ h, inModel ev = true)
+    (hcov : coveredAll (Cfg.code Gen.writeCommands) h = true)
+    (hqL : quietLive q {} h = true) (hqR : quietReplay q {} es = true) :
+    Agree (live q h).store (replay q es).store :=
+  replay_sim q (Cfg.code Gen.writeCommands) select_never_logged h {} {} {} es inv_init hes hin hcov hqL hqR
+
+/-- FULL, for the prescribed log: with a table that contains every mutating command and EVAL (and not SELECT), a
+    `SELECT` emitted whenever the database changes, and served pops logged as `LPOP`/`RPOP`, the statement holds for
+    EVERY history of the model — all 16 databases, all four paths, refused commands included — except writes with a
+    random outcome (SPOP), which need effect logging. -/
+theorem replay_eq_live_fixed (q : Quirks) (w : List String) (hall : ∀ n ∈ Spec.writeNames, n ∈ w) (heval : "EVAL" ∈ w)
+    (hsel : (Cfg.fixed w).wf = true) (h : List Aof.Ev) (es : List REntry)
+    (hes : es.map (·.cmd) = log (Cfg.fixed w) h)
+    (hin : ∀ ev ∈ h, inModel ev = true)
+    (hdet : ∀ raw ∈ rawsOf h, ¬ Spec.randomWrites.contains (effName raw) = true)
+    (hqL : quietLive q {} h = true) (hqR : quietReplay q {} es = true) :
+    Agree (live q h).store (replay q es).store :=
+  replay_sim q (Cfg.fixed w) hsel h {} {} {} es inv_init hes hin (coveredFrom_fixed w hall heval h {} hdet) hqL hqR
+
+/-- The proposed repair of the table is enough for the names: the current table plus the listed exceptions satisfies
+    the hypotheses of `replay_eq_live_fixed`. -/
+theorem fixed_table_suffices :
+    (∀ n ∈ Spec.writeNames, n ∈ Gen.writeCommands ++ Spec.notLogged) ∧ "EVAL" ∈ Gen.writeCommands ++ Spec.notLogged ∧
+    (Cfg.fixed (Gen.writeCommands ++ Spec.notLogged)).wf = true := by decide
+
+/-- A refused write is logged too (the code appends before it executes) and is harmless: the live dataset is
+    unchanged (failure atomicity), and replaying the entry on any agreeing dataset, at any instant, leaves the two
+    in agreement. -/
+theorem refused_logged_harmless (q : Quirks) (w : List String) (st : LogSt) (c cR : Conn) (ve : Bool) (now now' : Nat)
+    (obs obs' : Option (List Bytes)) (raw : List Bytes)
+    (hw : isWrite w (nameOf raw) = true) (hs : nameOf raw ≠ "SELECT") (hr : effName raw ≠ "SPOP")
+    (herr : isErr (KS.step q c.store c.cur now (effCmd raw) obs).2 = true)
+    (hqL : quietStep c c.cur now = true) (hcur : cR.cur = c.cur) (hqR : quietStep cR cR.cur now' = true)
+    (hA : Agree c.store cR.store) :
+    (logEv (Cfg.code w) st (.cmd ve now obs raw)).1 = [raw] ∧
+    (execEv q c (.cmd ve now obs raw)).store = c.store ∧
+    Agree (execEv q c (.cmd ve now obs raw)).store (execRaw q cR now' obs' raw).store := by
+  have hqL' := quietStep_eq hqL
+  have hqR' := quietStep_eq hqR
+  have hexec : execEv q c (.cmd ve now obs raw) = { c with store := (KS.step q c.store c.cur now (effCmd raw) obs).1 } := by
+    simp only [execEv, hs, and_false, if_false]
+    exact execRaw_not_select q c now obs raw hs
+  have hsame : (KS.step q c.store c.cur now (effCmd raw) obs).1 = c.store := by
+    rcases step_atomic q c.store c.cur now (effCmd raw) obs herr with h | h
+    · exact h
+    · rw [h, hqL', setDb_getDb_self]
+  refine ⟨?_, ?_, ?_⟩
+  · rw [logEv_code_cmd]; simp [hw]
+  · rw [hexec]; exact hsame
+  · rw [hexec, execRaw_not_select q cR now' obs' raw hs]
+    simp only
+    rw [hcur] at hqR' ⊢
+    exact step_sim q c.store cR.store hA c.cur now now' (effCmd raw) obs obs' hqL' hqR'
+      (Or.inl (by rw [nameOf_effCmd]; exact hr))
+
+/-! ### Witnesses: the full statement is false for the code as it is
+
+Histories are over keys `k`, `s`, `q`, values `v`, `w`; `t = 1000`, replay at `5000`. -/
+
+def k : Bytes := [107]
+def v : Bytes := [118]
+def direct (raw : List Bytes) : Aof.Ev := .cmd false 1000 none raw
+def codeLog (h : List Aof.Ev) : List (List Bytes) := log (Cfg.code Gen.writeCommands) h
+def fixedLog (h : List Aof.Ev) : List (List Bytes) := log (Cfg.fixed (Gen.writeCommands ++ Spec.notLogged)) h
+
+def hGetset : List Aof.Ev := [direct [strBytes "SET", k, v], direct [strBytes "GETSET", k, [119]]]
+def hHmset : List Aof.Ev := [direct [strBytes "HMSET", k, [102], v]]
+def hPexpire : List Aof.Ev := [direct [strBytes "SET", k, v], direct [strBytes "PEXPIRE", k, strBytes "100000"]]
+def hOtherDb : List Aof.Ev := [direct [strBytes "SELECT", [50]], direct [strBytes "SET", k, v]]
+def hWake : List Aof.Ev := [direct [strBytes "RPUSH", [113], v], .wake 0 1001 true [113]]
+def hScript : List Aof.Ev := [direct (wrap [strBytes "SET", k, v])]
+
+/-- GETSET is not logged: the file holds `SET k v` only and replays to the old value. -/
+theorem replay_fails_getset :
+    codeLog hGetset = [[strBytes "SET", k, v]] ∧ ¬ Agree (live Quirks.spec hGetset).store (replayAt Quirks.spec 5000 (codeLog hGetset)).store := by
+  decide
+
+/-- HMSET is not logged: the file stays empty. -/
+theorem replay_fails_hmset :
+    codeLog hHmset = [] ∧ ¬ Agree (live Quirks.spec hHmset).store (replayAt Quirks.spec 5000 (codeLog hHmset)).store := by
+  decide
+
+/-- PEXPIRE is not logged: the replayed key has no deadline (TTL presence differs). -/
+theorem replay_fails_pexpire :
+    codeLog hPexpire = [[strBytes "SET", k, v]] ∧
+    ¬ Agree (live Quirks.spec hPexpire).store (replayAt Quirks.spec 5000 (codeLog hPexpire)).store := by
+  decide
+
+/-- SELECT is never logged: a write in database 2 replays into database 0. -/
+theorem replay_fails_other_db :
+    codeLog hOtherDb = [[strBytes "SET", k, v]] ∧
+    getDb (live Quirks.spec hOtherDb).store 0 = [] ∧ getDb (live Quirks.spec hOtherDb).store 2 ≠ [] ∧
+    getDb (replayAt Quirks.spec 5000 (codeLog hOtherDb)).store 0 ≠ [] ∧ getDb (replayAt Quirks.spec 5000 (codeLog hOtherDb)).store 2 = [] := by
+  decide
+
+/-- A random outcome is logged verbatim: live popped `a`, the replaying server may draw `b`. -/
+theorem replay_fails_random_spop :
+    let h : List Aof.Ev := [direct [strBytes "SADD", [115], [97], [98]], .cmd false 1001 (some [[97]]) [strBytes "SPOP", [115]]]
+    codeLog h = [[strBytes "SADD", [115], [97], [98]], [strBytes "SPOP", [115]]] ∧
+    ¬ Agree (live Quirks.spec h).store
+        (replay Quirks.spec [⟨5000, none, [strBytes "SADD", [115], [97], [98]]⟩, ⟨5001, some [[98]], [strBytes "SPOP", [115]]⟩]).store := by
+  decide
+
+/-- The pop served to a blocked client bypasses the log: the element comes back on replay. -/
+theorem replay_fails_wake :
+    codeLog hWake = [[strBytes "RPUSH", [113], v]] ∧
+    getDb (live Quirks.spec hWake).store 0 = [] ∧ getDb (replayAt Quirks.spec 5000 (codeLog hWake)).store 0 ≠ [] := by
+  decide
+
+/-- The script path is represented only because EVAL itself is in the table (the `redis.call`s are not logged):
+    logged verbatim it replays to the same dataset, and without EVAL in the table the write is lost. -/
+theorem script_path_logged_as_eval :
+    codeLog hScript = [wrap [strBytes "SET", k, v]] ∧
+    Agree (live Quirks.spec hScript).store (replayAt Quirks.spec 5000 (codeLog hScript)).store ∧
+    log (Cfg.code (Gen.writeCommands.erase "EVAL")) hScript = [] ∧
+    ¬ Agree (live Quirks.spec hScript).store (replayAt Quirks.spec 5000 (log (Cfg.code (Gen.writeCommands.erase "EVAL")) hScript)).store := by
+  decide
+
+/-- The prescribed log repairs each of the four: missing names, SELECT, served pop. -/
+theorem fixed_log_repairs_witnesses :
+    Agree (live Quirks.spec hGetset).store (replayAt Quirks.spec 5000 (fixedLog hGetset)).store ∧
+    Agree (live Quirks.spec hHmset).store (replayAt Quirks.spec 5000 (fixedLog hHmset)).store ∧
+    Agree (live Quirks.spec hPexpire).store (replayAt Quirks.spec 5000 (fixedLog hPexpire)).store ∧
+    fixedLog hOtherDb = [selectCmd 2, [strBytes "SET", k, v]] ∧
+    Agree (live Quirks.spec hOtherDb).store (replayAt Quirks.spec 5000 (fixedLog hOtherDb)).store ∧
+    fixedLog hWake = [[strBytes "RPUSH", [113], v], popCmd true [113]] ∧
+    Agree (live Quirks.spec hWake).store (replayAt Quirks.spec 5000 (fixedLog hWake)).store := by
+  decide
+
+/-! ### Non-vacuity: the hypotheses of the theorems are satisfiable by non-trivial histories -/
+
+/-- a covered history through three paths (direct, EXEC, script) with a TTL, a refused write and reads -/
+def hCovered : List Aof.Ev :=
+  [direct [strBytes "SET", k, v, strBytes "EX", strBytes "100"],
+   .cmd true 1001 none [strBytes "RPUSH", [108], [97], [98]],
+   .cmd true 1001 none [strBytes "INCR", [108]],                 -- refused (wrong type), logged all the same
+   direct (wrap [strBytes "HSET", [104], [102], v]),
+   direct [strBytes "GET", k],
+   .cmd false 1002 none [strBytes "SELECT", [51]],
+   .cmd false 1003 none [strBytes "GET", k],
+   .cmd false 1004 none [strBytes "SELECT", [48]],
+   .cmd false 1005 none [strBytes "LPOP", [108]]]
+
+example : (∀ ev ∈ hCovered, inModel ev = true) ∧ coveredAll (Cfg.code Gen.writeCommands) hCovered = true ∧
+    quietLive Quirks.spec {} hCovered = true ∧ (codeLog hCovered).length = 5 ∧
+    quietReplay Quirks.spec {} ((codeLog hCovered).map fun c => ⟨900000, none, c⟩) = true := by decide
+example : ¬ coveredAll (Cfg.code Gen.writeCommands) hGetset = true ∧ ¬ coveredAll (Cfg.code Gen.writeCommands) hOtherDb = true ∧
+    ¬ coveredAll (Cfg.code Gen.writeCommands) hWake = true := by decide
+example : cmdWf [strBytes "SET", [13, 10, 42, 51, 13, 10], [0, 255]] := by
+  constructor
+  · decide
+  · intro a ha; simp at ha; rcases ha with h | h | h <;> subst h <;> decide
+example : readLog (fileOf [[strBytes "SET", k, [13, 10]], [strBytes "DEL", k]] ++ [42, 50, 13, 10, 36]) =
+    ([[strBytes "SET", k, [13, 10]], [strBytes "DEL", k]], .torn [42, 50, 13, 10, 36]) := by decide
+example : isErr (KS.step Quirks.spec (live Quirks.spec [direct [strBytes "RPUSH", [108], [97]]]).store 0 1001 [strBytes "INCR", [108]] none).2 = true := by
+  decide
 
 end Ferrous.C11
